@@ -37,6 +37,9 @@ type Engine struct {
 	loadErrs  []string
 	ifaceMeths []*ifaceMeth
 	known      []*KnownFinding
+	fieldInvs  map[string]*FieldInv // canon struct type + "#" + field index
+	fieldSitesOutside map[string][]string
+	fieldSites map[string][]string  // inventory: invariant key -> functions containing a store site
 }
 
 type ifaceMeth struct {
@@ -127,9 +130,33 @@ func loadEngine(repo string) (*Engine, error) {
 					return e, err
 				}
 			}
+			for _, fi := range cf.FieldInvs {
+				tn := e.tpkgs[fi.PkgPath].Scope().Lookup(fi.Type)
+				if tn == nil {
+					return e, fmt.Errorf("%s:%d: type %s not found", fi.Clause.File, fi.Clause.Line, fi.Type)
+				}
+				st, ok := tn.Type().Underlying().(*types.Struct)
+				if !ok {
+					return e, fmt.Errorf("%s:%d: %s is not a struct", fi.Clause.File, fi.Clause.Line, fi.Type)
+				}
+				idx := -1
+				for i := 0; i < st.NumFields(); i++ {
+					if st.Field(i).Name() == fi.Field {
+						idx = i
+					}
+				}
+				if idx < 0 {
+					return e, fmt.Errorf("%s:%d: no field %s.%s", fi.Clause.File, fi.Clause.Line, fi.Type, fi.Field)
+				}
+				if e.fieldInvs == nil {
+					e.fieldInvs = map[string]*FieldInv{}
+				}
+				e.fieldInvs[fmt.Sprintf("%s#%d", canonType(tn.Type()), idx)] = fi
+			}
 		}
 	}
 	e.synthRefinements()
+	e.synthFieldSites()
 	return e, nil
 }
 
@@ -148,6 +175,68 @@ func (e *Engine) synthRefinements() {
 				e.ctFunc[c] = f
 				e.allCts = append(e.allCts, c)
 				break
+			}
+		}
+	}
+}
+
+// fieldInvOf returns the invariant attached to the field addressed by fa.
+func (e *Engine) fieldInvOf(fa *ssa.FieldAddr) (*FieldInv, string) {
+	if len(e.fieldInvs) == 0 {
+		return nil, ""
+	}
+	pt, ok := types.Unalias(fa.X.Type()).Underlying().(*types.Pointer)
+	if !ok {
+		return nil, ""
+	}
+	k := fmt.Sprintf("%s#%d", canonType(pt.Elem()), fa.Field)
+	return e.fieldInvs[k], k
+}
+
+// synthFieldSites: every function of the module that stores to a field under
+// invariant is put under (an at least empty) contract, so that the store is
+// an obligation; the inventory of sites is kept for the evidence.
+func (e *Engine) synthFieldSites() {
+	e.fieldSites = map[string][]string{}
+	e.fieldSitesOutside = map[string][]string{}
+	for _, f := range e.modFuncs {
+		var hit []*FieldInv
+		for _, b := range f.Blocks {
+			for _, in := range b.Instrs {
+				st, ok := in.(*ssa.Store)
+				if !ok {
+					continue
+				}
+				fa, ok := st.Addr.(*ssa.FieldAddr)
+				if !ok {
+					continue
+				}
+				if fi, k := e.fieldInvOf(fa); fi != nil {
+					if funcPkg(f).Path() != fi.PkgPath {
+						// sites outside the package that owns the invariant are inventoried but not claimed
+						e.fieldSitesOutside[k] = append(e.fieldSitesOutside[k], fmt.Sprintf("%s:%d", funcKey(f), e.prog.Fset.Position(st.Pos()).Line))
+						continue
+					}
+					hit = append(hit, fi)
+					e.fieldSites[k] = append(e.fieldSites[k], fmt.Sprintf("%s:%d", funcKey(f), e.prog.Fset.Position(st.Pos()).Line))
+				}
+			}
+		}
+		if len(hit) == 0 {
+			continue
+		}
+		c := e.contracts[f]
+		if c == nil {
+			c = &Contract{Ref: funcKey(f), PkgPath: funcPkg(f).Path(), File: hit[0].Clause.File, Line: hit[0].Clause.Line, Modes: map[string]string{}, Synth: true}
+			e.contracts[f] = c
+			e.ctFunc[c] = f
+			e.allCts = append(e.allCts, c)
+		}
+		for _, fi := range hit {
+			for _, p := range fi.Clause.Props {
+				if !hasProp(c.SiteProps, p) {
+					c.SiteProps = append(c.SiteProps, p)
+				}
 			}
 		}
 	}
